@@ -47,7 +47,8 @@ pub enum Ty {
     Tuple(Vec<Ty>),
     Option(Box<Ty>),
     Result(Box<Ty>, Box<Ty>),
-    Adt(String),
+    /// struct / enum by Rust name, with its type arguments when known (empty = the same-named parameters in scope)
+    Adt(String, Vec<Ty>),
     Param(String),
     Ptr(Box<Ty>),
     Ordering,
@@ -74,7 +75,7 @@ impl fmt::Display for Ty {
             }
             Ty::Option(t) => write!(f, "Option<{}>", t),
             Ty::Result(a, b) => write!(f, "Result<{},{}>", a, b),
-            Ty::Adt(n) => write!(f, "{}", n),
+            Ty::Adt(n, _) => write!(f, "{}", n),
             Ty::Param(n) => write!(f, "{}", n),
             Ty::Ptr(t) => write!(f, "*{}", t),
             Ty::Ordering => write!(f, "Ordering"),
@@ -123,6 +124,7 @@ impl Subst {
             Ty::Option(e) => Ty::Option(Box::new(self.resolve(&e))),
             Ty::Result(a, b) => Ty::Result(Box::new(self.resolve(&a)), Box::new(self.resolve(&b))),
             Ty::Ptr(e) => Ty::Ptr(Box::new(self.resolve(&e))),
+            Ty::Adt(n, args) => Ty::Adt(n, args.iter().map(|x| self.resolve(x)).collect()),
             other => other,
         }
     }
@@ -177,7 +179,14 @@ impl Subst {
                 }
                 Ok(())
             }
-            (Ty::Adt(x), Ty::Adt(y)) if x == y => Ok(()),
+            (Ty::Adt(x, xa), Ty::Adt(y, ya)) if x == y => {
+                if xa.len() == ya.len() {
+                    for (p, q) in xa.iter().zip(ya.iter()) {
+                        self.unify(p, q)?;
+                    }
+                }
+                Ok(())
+            }
             (Ty::Param(x), Ty::Param(y)) if x == y => Ok(()),
             _ => Err(format!("type mismatch {} vs {}", a, b)),
         }
